@@ -153,6 +153,7 @@ def run(ctx):
         events = ecdsadrv.run_pool(ecdsadrv.verify_grid_events, args)
         for ev in events:
             ctx.nontrivial_n += len(ev["rs"]) * len(ev["ss"])
+            ctx.evaluations += len(ev["rs"]) * len(ev["ss"])        # verify_digest calls behind this event
         ecdsarun.validate(ctx, cid, events, ["C02"], describe)
         ctx.sample({"curve": cid, "event": dict(events[0], rs="0..255", ss="0..255")})
         # byte-level offers: mutations of genuine signatures through all three decoders
@@ -203,6 +204,7 @@ def run(ctx):
         events = ecdsadrv.run_pool(ecdsadrv.verify_grid_events, args)
         for ev in events:
             ctx.nontrivial_n += len(ev["rs"]) * len(ev["ss"])
+            ctx.evaluations += len(ev["rs"]) * len(ev["ss"])        # verify_digest calls behind this event
         ecdsarun.validate(ctx, cid, events, ["C02"], describe)
     production(ctx, quick, rnd)
     ctx.rule = ("toy curves with 1-byte order: for each (key, digest) EVERY 2-byte raw signature (all 65536 (r, s) pairs) is offered "
